@@ -32,8 +32,8 @@ const VICTIMS: [Victim; 14] = [
 const MAX_K: usize = 7;
 
 /// Pulls everything that is or becomes available on `sub` (now, and after every lease has expired), acking as it goes.
-async fn drain_sub(cx: &Ctx, sub: &'static str) -> Result<Result<BTreeSet<Vec<u8>>, Code>, Verdict> {
-    let mut seen = BTreeSet::new();
+async fn drain_sub(cx: &Ctx, sub: &'static str) -> Result<Result<Vec<Vec<u8>>, Code>, Verdict> {
+    let mut seen = vec![];
     for round in 0..3 {
         loop {
             let a = cx.api.clone();
@@ -43,7 +43,7 @@ async fn drain_sub(cx: &Ctx, sub: &'static str) -> Result<Result<BTreeSet<Vec<u8
                 Ok(v) if v.is_empty() => break,
                 Ok(v) => {
                     for m in &v {
-                        seen.insert(m.data.clone());
+                        seen.push(m.data.clone());
                     }
                     let ids: Vec<String> = v.iter().map(|m| m.ack_id.clone()).collect();
                     let a = cx.api.clone();
@@ -130,7 +130,7 @@ fn scenario(saturated: bool) -> ScenFn {
         // the caller disappears after k polls of its task (k = MAX_K: it never disappears)
         if k < MAX_K {
             tryv!(cx.quiesce_until_polls("client:1-victim", k as u32).await);
-            h.abort();
+            cx.abort_now(&h).await;
         }
         tryv!(cx.quiesce().await);
         tryv!(cx.advance_ms(1000).await);
@@ -192,9 +192,17 @@ fn scenario(saturated: bool) -> ScenFn {
             if g.is_err() {
                 continue;
             }
+            // conservation: every unacknowledged message is exactly once either in the backlog or leased
+            let held = tryv!(cx.stats(name).await).map(|st| st.backlog + st.outstanding).unwrap_or(0);
             match tryv!(drain_sub(&cx, name).await) {
                 Err(c) => return ScenarioOut::viol("wedged/subscription", format!("{}: Pull on existing {} = {:?}", case, name, c)),
-                Ok(set) => got.push((name, set)),
+                Ok(list) => {
+                    let set: BTreeSet<Vec<u8>> = list.iter().cloned().collect();
+                    if list.len() != set.len() || held != set.len() {
+                        return ScenarioOut::viol("message-accounting", format!("{}: {} had backlog+outstanding = {} at quiescence; the drain (each delivery acknowledged at once) delivered {} messages, {} distinct", case, name, held, list.len(), set.len()));
+                    }
+                    got.push((name, set))
+                }
             }
         }
         let has = |set: &BTreeSet<Vec<u8>>, x: &str| set.contains(x.as_bytes());
